@@ -11,7 +11,7 @@ import (
 
 // C17: BytesMontgomery is the RFC 7748 birational map.
 func C17(c *Ctx) {
-	n := c.N(30000, 1500000)
+	n := c.N(120000, 3000000)
 	for i := int64(0); i < n; i++ {
 		if !c.Mine(i) {
 			continue
